@@ -275,6 +275,53 @@ func checkC17(r *core.Result) {
 			if mc.marshalTo == nil || mc.marshal == nil || mc.unmarshal == nil {
 				continue
 			}
+			// Q-map-value: a map entry that omits its value stands for the value type's empty message; when that type
+			// has required fields the entry lacks them, so the substitution of an empty message must be followed by the
+			// value's required-field check (or be an error).
+			for _, fld := range mc.desc.Fields {
+				if !fld.Desc.IsMap() || fld.Desc.MapValue().Message() == nil {
+					continue
+				}
+				valMsg := fld.Message.Fields[1].Message
+				hasReq := false
+				for _, vf := range valMsg.Fields {
+					if vf.Desc.Cardinality() == protoreflect.Required {
+						hasReq = true
+					}
+				}
+				if !hasReq {
+					continue
+				}
+				checked := false
+				ast.Inspect(mc.unmarshal.Body, func(n ast.Node) bool {
+					is, ok := n.(*ast.IfStmt)
+					if !ok {
+						return true
+					}
+					b, ok := is.Cond.(*ast.BinaryExpr)
+					if !ok || b.Op != token.EQL || !isNilIdentExpr(b.Y) {
+						return true
+					}
+					if id, ok := b.X.(*ast.Ident); !ok || !strings.Contains(strings.ToLower(id.Name), "value") {
+						return true
+					}
+					// inside the defaulting branch: an error return or a required check
+					if returnsError(info, is.Body.List) {
+						checked = true
+					}
+					ast.Inspect(is.Body, func(m ast.Node) bool {
+						if c, ok := m.(*ast.CallExpr); ok {
+							if fn := staticCallee(info, c); fn != nil && strings.Contains(fn.Name(), "CheckRequiredFields") {
+								checked = true
+							}
+						}
+						return true
+					})
+					return true
+				})
+				r.GroupOb("Q-map-value", "a map entry without a value is checked against the value type's required fields", fmt.Sprintf("%s.%s.%s [%s]", u.File.Pkg, mc.goName, fld.GoName, u.Combo.String()), mc.pos(ex, mc.unmarshal.Pos()), checked,
+					"the entry's missing value is replaced by an empty message without checking that message's required fields: input that lacks a required field is accepted")
+			}
 			req := requiredFieldsOf(mc)
 			pos := mc.pos(ex, mc.marshalTo.Pos())
 			r.GroupOb("Q-helper", "required-field checker exists exactly for messages with required fields", mc.name(), pos, (mc.checkReq != nil) == (len(req) > 0), fmt.Sprintf("required fields %v; checker generated: %v", req, mc.checkReq != nil))
